@@ -404,7 +404,7 @@ def solid_mesh_st(draw, renumber=True):
     n = draw(st.integers(3, 8))
     lon0 = draw(st.floats(-180, 180, allow_nan=False))
     if kind == "pyramid":
-        m = pyramid(n, draw(st.floats(-60, 30)), lon0)
+        m = pyramid(n, draw(st.floats(-60, -5)), lon0)  # base below the equator: a convex face smaller than a hemisphere
     elif kind == "prism":
         m = prism(n, draw(st.floats(15, 60)), lon0, False)
     elif kind == "antiprism":
